@@ -17,7 +17,7 @@ meta = {
     "summary": m.get("summary"),
     "needs_to_manifest": m.get("needs"),
     "why_tests_miss": m.get("why_tests_miss"),
-    "author": "independent sub-agent (rounds 5-12: option interplay, leaking state, special syntax positions, scopes, clone-vs-take, overrides, lossy conversions, JS glue; fast paths, memo keys, error paths, visit order, boundaries, wasm/JS interface, prefix, telemetry, swc options; JS-semantics corners, type-level changes, laziness, casts, encodings, source-map spec details, sharing) given only the property text and a scratch worktree",
+    "author": "independent sub-agent (rounds 5-13: option interplay, leaking state, special syntax positions, scopes, clone-vs-take, overrides, lossy conversions, JS glue; fast paths, memo keys, error paths, visit order, boundaries, wasm/JS interface, prefix, telemetry, swc options; JS-semantics corners, type-level changes, laziness, casts, encodings, source-map spec details, sharing) given only the property text and a scratch worktree",
     "confirmed_by_me": {"how": "bin/seedeval.sh", "suite_with_change": "98 passed", "demo_with_change": "fails", "demo_without_change": "passes"},
     "agent_commands": m.get("commands"),
     "caught_by": json.loads(caught),
